@@ -1,5 +1,7 @@
 import Pcore.Proofs.LatSoundMain
+import Pcore.Proofs.DescribeWF
 set_option linter.unusedSimpArgs false
+set_option linter.unusedVariables false
 /-!
 # C19 — Type-mismatch reporting is total and agrees with the lattice
 
@@ -8,22 +10,39 @@ crashing, is empty exactly when the actual is assignable to the expected, and ot
 assertion raises a reported type-mismatch error exactly when the value is not an instance, and inferring the detailed type needed
 for the message never fails.
 
-Model (`Pcore/Model/LatticeInst.lean`): `descEmpty e a` is the decision skeleton of `describe` in internal/typemismatchdescriber.go AS
-IT IS NOW: (1) scan the expected type for an unresolved TypeReference, (2) the guard `if px.IsAssignable(expected, actual) return
-NoMismatch`, (3) `internalDescribe`, and when that yields nothing the fallback `newTypeMismatch` — so after the guard the result is never
-empty.  `assertOk t v` is `px.AssertInstance` (`inst`, else `MismatchError` built from `DetailedValueType`), `dtype` is `px.DetailedValueType`.
+Models.
+* `Pcore/Model/LatticeInst.lean`: `descEmpty e a` — the decision skeleton of `describe` (TypeReference scan, assignability guard, never-empty
+  fallback); `assertOk t v` = `px.AssertInstance`; `dtype` = `px.DetailedValueType`.
+* `Pcore/Model/Describe.lean` (namespace `Pcore.Desc`): the STRUCTURE of the describer of internal/typemismatchdescriber.go AS IT IS NOW —
+  `describe e a p : Res` = `ok (ms : List Mismatch)` | `fault k`: one `Mismatch` constructor per Go mismatch struct, carrying its path
+  (list of path elements: subject / entry / key of entry / index / variant / …) and the types, names or size ranges it holds;
+  `internalDescribe` with one arm per case of the Go type switch (describeVariantType with the member loop, its early return and
+  mergeDescriptions / mergeMismatch / chopPath; describeTypeAliasType for the built-in aliases Data and RichData; describeOptionalType;
+  describeStructType / describeHashType / describeArrayType / describeTuple with their loops; Enum / Pattern / default), the guard and the
+  fallback of `describe`.  `Pcore/Model/DescribeText.lean`: what the canonical observation keeps of `text()`.
 
 Full statement / proved / missing
-* `C19_empty_iff`      — PROVED: `descEmpty e a = asg true e a` for all type terms (the guard that exists in `describe`).
-* `C19_assert_iff`     — PROVED: the assertion raises exactly when `inst` is false.
-* `C19_assert_sound`   — PROVED (from C01_sound_partial, rule off, fragment `Ty.Frag`): if the assertion against B passes and A accepts B
-                         then the assertion against A passes.
-* totality             — by construction: `descEmpty`, `assertOk`, `dtype` are total Lean functions with no `fault` constructor; the Go
-                         fault sites that existed (Tuple.Equals nil size, `NewStructElement` on an empty key, `text()` slicing `[:-1]` for an
-                         empty Variant) were repaired (`fix:` commits 5e6c612, c10d6d4, ce89568) and their witnesses are replayed from the corpus.
-* missing: the 1000 lines of message assembly (`internalDescribe`, `mergeDescriptions`, `chopPath`, `text()`): only emptiness is modelled;
-  "names the subject" and "no crash" are checked on the implementation for every generated pair (direct predicates `desc-no-subject`,
-  `desc-panic`, `assert-fault`, `dvt-panic`), not proved.  Callable / Init expectations and unresolved TypeReferences are not in the model.
+* `C19_empty_iff`, `C19_nonempty_iff`, `C19_assert_iff`, `C19_assert_sound` — PROVED (as before; the skeleton and the assertion).
+* `C19_describe_total`        — PROVED: no fault.  The Go fault sites of the modelled code are explicit `fault` results (`mismatches[0]` of an
+                                empty slice in mergeDescriptions, `expected.Types()[exl-1]` of a Tuple without types in describeTuple) and are
+                                unreachable for ALL type terms; the nil-size and type-assertion sites of `from()/to()/text()` are discharged by
+                                the typing of the model (sizes are `Rng`, never nil; see the header of Describe.lean).
+* `C19_describe_empty_iff`    — PROVED for the whole modelled describer: `describe e a p = ok [] ↔ asg e a` (and `C19_describe_nonempty`).
+* `C19_describe_justified`    — PROVED: every reported mismatch has the path `p ++ s` where `s` is a walk (`Reach`) through the expected and the
+                                actual type, and the soundness condition of its kind (`Local`) holds where the walk ends.
+* `C19_path_valid`            — PROVED: every path is a valid position (`Pos`) of the expected type — whatever was merged or chopped.
+* `C19_prefix_kept`, `C19_names_subject` — PROVED: the given path stays a prefix; the subject element (first) is kept: "names the subject".
+* `C19_missingKey_real`, `C19_extraneousKey_real` — PROVED (the first for well-formed expected types; `C19_missingKey_real_any` without).
+* `C19_sizeMismatch_real` (def, full statement: the reported actual range is never inside the reported expected range) — FALSE of the code:
+  mergeMismatch replaces the expected range of merged size mismatches by the HULL of the members' ranges, which may contain the actual
+  range (`C19_sizeMismatch_merged_hull`: Variant[Array[String,0,1], Array[String,5,6]] against Array[String,3,3] reports "size 0..6, got 3").
+  Not a violation of C19's own text (the description is non-empty and names the subject); recorded here, not as a finding.
+* `C19_typeMismatch_real` (def, full statement: the reported expected type does not accept the reported actual type) — FALSE of the code for
+  nested positions: the container arms report a type mismatch for every actual type of another kind WITHOUT asking IsAssignable, so a
+  NotUndef / Variant / alias wrapper around an acceptable type is reported (`C19_typeMismatch_nested_wrapper`); the top level is protected by
+  the guard of `describe`.  Same remark.
+* missing: the English of `text()` (article, "or"-lists, detailed vs short type names, quoting); Callable / Init expectations, user-defined
+  aliases and unresolved TypeReferences are not in the term language (harness-side tests: `@cdesc`, `@cassert`, `@sigs`, `t2-*`).
 -/
 namespace Pcore.Lat
 
@@ -51,3 +70,190 @@ example (cfg : Cfg) : descEmpty cfg true (.int ⟨1, 2⟩) (.variant [.str, .int
 example (cfg : Cfg) : assertOk cfg true (.int ⟨1, 2⟩) (.str "a") = false := by simp [assertOk, inst]
 
 end Pcore.Lat
+
+namespace Pcore.Desc
+open Pcore.Lat
+
+section
+variable (cfg : Cfg) (sfh : Bool)
+
+/-- NO FAULT: none of the Go runtime faults the model makes explicit (`mismatches[0]` of an empty slice in mergeDescriptions,
+    `expected.Types()[exl-1]` of a Tuple without types in describeTuple) is reachable — `describe` always returns normally. -/
+theorem C19_describe_total (e a : Ty) (p : Path) : ∃ ms, describe cfg sfh e a p = .ok ms := by
+  unfold describe
+  split
+  · exact ⟨_, rfl⟩
+  · obtain ⟨r, hr⟩ := (describe_total cfg sfh).1 e e a p
+    rw [hr]
+    cases r with
+    | nil => exact ⟨_, rfl⟩
+    | cons d ds => exact ⟨_, rfl⟩
+
+/-- EMPTY IFF ASSIGNABLE, for the whole modelled describer (TypeReference scan, guard, internalDescribe with all its loops and
+    merges, fallback): the description is empty exactly when the actual type is assignable — and it is always produced. -/
+theorem C19_describe_empty_iff (e a : Ty) (p : Path) : describe cfg sfh e a p = .ok [] ↔ asg cfg sfh e a = true := by
+  unfold describe
+  constructor
+  · intro h
+    by_cases hasg : asg cfg sfh e a = true
+    · exact hasg
+    · rw [if_neg hasg] at h
+      obtain ⟨r, hr⟩ := (describe_total cfg sfh).1 e e a p
+      rw [hr] at h
+      cases r with
+      | nil => simp at h
+      | cons d ds => simp at h
+  · intro h; rw [if_pos h]
+
+/-- what is reported when the actual type is not assignable is never empty -/
+theorem C19_describe_nonempty (e a : Ty) (p : Path) (h : asg cfg sfh e a = false) :
+    ∃ m ms, describe cfg sfh e a p = .ok (m :: ms) := by
+  obtain ⟨r, hr⟩ := C19_describe_total cfg sfh e a p
+  cases r with
+  | nil => rw [C19_describe_empty_iff] at hr; simp [hr] at h
+  | cons m ms => exact ⟨m, ms, hr⟩
+
+/-- EVERY REPORTED MISMATCH IS JUSTIFIED: its path is the given path followed by a walk `s` through the expected and the actual type
+    (`Reach`: entry / key / index steps descend into BOTH types, variant steps and Optional unwrapping into the expected one), and
+    the soundness condition of its kind (`Local`) holds of the pair of sub-terms the walk ends at. -/
+theorem C19_describe_justified (e a : Ty) (p : Path) (ms : List Mismatch) (h : describe cfg sfh e a p = .ok ms) :
+    ∀ m ∈ ms, ∃ s x a', m.path = p ++ s ∧ Reach e a false s x a' ∧ Local m.kk x a' := by
+  unfold describe at h
+  split at h
+  · simp only [Res.ok.injEq] at h; subst h; intro m hm; cases hm
+  · cases hr : internalDescribe cfg sfh e e a p with
+    | fault k => rw [hr] at h; cases h
+    | ok r =>
+      rw [hr] at h
+      have hj := (describe_reach cfg sfh).1 e e a p r hr
+      cases r with
+      | nil =>
+        simp only [Res.ok.injEq] at h; subst h
+        intro m hm
+        simp only [List.mem_singleton] at hm; subst hm
+        exact ⟨[], .ty e, a, by simp [Mismatch.path], .refl _ _ _, by simp [Local, Mismatch.kk, Mismatch.cls]⟩
+      | cons d ds =>
+        simp only [Res.ok.injEq] at h; subst h
+        intro m hm
+        obtain ⟨s, x, a', hp, hreach, hloc⟩ := hj m hm
+        exact ⟨s, x, a', hp, hreach.oc_irrelevant, hloc⟩
+
+/-- EVERY PATH IS A VALID POSITION OF THE EXPECTED TYPE (whatever mergeDescriptions merged and chopPath chopped) -/
+theorem C19_path_valid (e a : Ty) (p : Path) (ms : List Mismatch) (h : describe cfg sfh e a p = .ok ms) :
+    ∀ m ∈ ms, ∃ s, m.path = p ++ s ∧ Pos e false s := by
+  intro m hm
+  obtain ⟨s, x, a', hp, hreach, _⟩ := C19_describe_justified cfg sfh e a p ms h m hm
+  exact ⟨s, hp, hreach.toPos⟩
+
+/-- the path a mismatch was described under is kept as a prefix by every merge and chop -/
+theorem C19_prefix_kept (e a : Ty) (p : Path) (ms : List Mismatch) (h : describe cfg sfh e a p = .ok ms) :
+    ∀ m ∈ ms, p <+: m.path := by
+  intro m hm
+  obtain ⟨s, hp, _⟩ := C19_path_valid cfg sfh e a p ms h m hm
+  exact ⟨s, hp.symm⟩
+
+/-- NAMES THE SUBJECT: every mismatch `px.DescribeMismatch(name, e, a)` formats starts with the subject element it was given -/
+theorem C19_names_subject (name : String) (e a : Ty) (ms : List Mismatch) (h : describe cfg sfh e a (subjectPath name) = .ok ms) :
+    ∀ m ∈ ms, m.path.head? = some ⟨.subject, "function " ++ name ++ ":"⟩ := by
+  intro m hm
+  obtain ⟨s, hs⟩ := C19_prefix_kept cfg sfh e a _ ms h m hm
+  rw [← hs]; rfl
+
+/-- A MISSING KEY IS REAL: `expects a value for key k` at `p ++ s` is reported only if the walk `s` ends at an expected Struct of which
+    `k` is a REQUIRED member and an actual Struct that has no member `k` (expected type well-formed: member names pairwise different,
+    what a hash literal / the constructors establish). -/
+theorem C19_missingKey_real (e a : Ty) (p q : Path) (k : String) (ms : List Mismatch) (hw : Ty.WF cfg e)
+    (h : describe cfg sfh e a p = .ok ms) (hm : Mismatch.missingKey q k ∈ ms) :
+    ∃ s ems ams, q = p ++ s ∧ Reach e a false s (.ty (.struct ems)) (.struct ams) ∧
+      (∃ t, (k, false, t) ∈ ems) ∧ ∀ m ∈ ams, m.1 ≠ k := by
+  obtain ⟨s, x, a', hp, hreach, hloc⟩ := C19_describe_justified cfg sfh e a p ms h _ hm
+  simp only [Local, Mismatch.kk] at hloc
+  obtain ⟨ems, ams, rfl, rfl, ht, hor⟩ := hloc
+  refine ⟨s, ems, ams, hp, hreach, ht, ?_⟩
+  rcases hor with hnone | hdup
+  · exact lookupLast_none.mp hnone
+  · have := hreach.wf hw
+    rw [Ty.WF] at this
+    exact absurd this.1 hdup
+
+/-- the same without the well-formedness hypothesis: absent from the actual Struct, OR the expected Struct names a member twice
+    (the second occurrence finds its key already deleted from the map) -/
+theorem C19_missingKey_real_any (e a : Ty) (p q : Path) (k : String) (ms : List Mismatch)
+    (h : describe cfg sfh e a p = .ok ms) (hm : Mismatch.missingKey q k ∈ ms) :
+    ∃ s ems ams, q = p ++ s ∧ Reach e a false s (.ty (.struct ems)) (.struct ams) ∧
+      (∃ t, (k, false, t) ∈ ems) ∧ ((∀ m ∈ ams, m.1 ≠ k) ∨ ¬ (ems.map (·.1)).Nodup) := by
+  obtain ⟨s, x, a', hp, hreach, hloc⟩ := C19_describe_justified cfg sfh e a p ms h _ hm
+  simp only [Local, Mismatch.kk] at hloc
+  obtain ⟨ems, ams, rfl, rfl, ht, hor⟩ := hloc
+  exact ⟨s, ems, ams, hp, hreach, ht, hor.imp lookupLast_none.mp id⟩
+
+/-- AN UNRECOGNISED KEY IS REAL: `unrecognized key k` at `p ++ s` is reported only if the walk ends at an actual Struct that has a member
+    `k` and an expected Struct that has none -/
+theorem C19_extraneousKey_real (e a : Ty) (p q : Path) (k : String) (ms : List Mismatch)
+    (h : describe cfg sfh e a p = .ok ms) (hm : Mismatch.extraneousKey q k ∈ ms) :
+    ∃ s ems ams, q = p ++ s ∧ Reach e a false s (.ty (.struct ems)) (.struct ams) ∧
+      (∃ m ∈ ams, m.1 = k) ∧ ∀ m ∈ ems, m.1 ≠ k := by
+  obtain ⟨s, x, a', hp, hreach, hloc⟩ := C19_describe_justified cfg sfh e a p ms h _ hm
+  simp only [Local, Mismatch.kk] at hloc
+  obtain ⟨ems, ams, rfl, rfl, hin, hno⟩ := hloc
+  exact ⟨s, ems, ams, hp, hreach, hin, hno⟩
+
+end
+end Pcore.Desc
+
+/-! ### full-strength soundness of size and type mismatches: false of the code, with witnesses -/
+namespace Pcore.Desc
+open Pcore.Lat
+
+/-- full statement: a reported size mismatch is real -/
+def C19_sizeMismatch_real (cfg : Cfg) (sfh : Bool) : Prop :=
+  ∀ e a p ms, describe cfg sfh e a p = .ok ms → ∀ q er ar, Mismatch.sizeMismatch q er ar ∈ ms → er.sub ar = false
+
+/-- the merged size mismatch of two Variant members carries the hull of their ranges -/
+theorem C19_sizeMismatch_merged_hull (cfg : Cfg) :
+    describe cfg true (.variant [.array .str ⟨0, 1⟩, .array .str ⟨5, 6⟩]) (.array .str ⟨3, 3⟩) (subjectPath "x")
+      = .ok [.sizeMismatch (subjectPath "x") ⟨0, 6⟩ ⟨3, 3⟩] := by
+  simp [describe, internalDescribe, descVar, descAll, variantTail, mergeDescriptions, tryClasses, foldMerge, mergeMismatch,
+    canonPath, chopPath, VRes.cons, Res.append, Mismatch.cls, Mismatch.path, Mismatch.setPath, subjectPath, PE.nat, isOptional, isAlias,
+    asg, asgRecv, asgAnyL, sameNullary, Rng.sub, Rng.hull, isStringFamily]
+  constructor <;> omega
+
+theorem C19_sizeMismatch_real_false (cfg : Cfg) : ¬ C19_sizeMismatch_real cfg true := by
+  intro h
+  have := h _ _ _ _ (C19_sizeMismatch_merged_hull cfg) _ _ _ List.mem_cons_self
+  simp [Rng.sub] at this
+
+/-- full statement: the expected type a type mismatch reports does not accept the actual type it reports -/
+def C19_typeMismatch_real (cfg : Cfg) (sfh : Bool) : Prop :=
+  ∀ e a p ms, describe cfg sfh e a p = .ok ms → ∀ q t act, Mismatch.typeMismatch q (.ofTy t) act ∈ ms → asg cfg sfh t act = false
+
+/-- Struct[{a => Array[String]}] against Struct[{a => NotUndef[Array[String]], z => String}]: besides the unrecognised key `z` the entry
+    `a` is reported as a type mismatch although Array[String] accepts NotUndef[Array[String]] -/
+theorem C19_typeMismatch_nested_wrapper (cfg : Cfg) :
+    describe cfg true (.struct [("a", false, .array .str Rng.pos)])
+        (.struct [("a", false, .notUndef (.array .str Rng.pos)), ("z", false, .str)]) (subjectPath "x")
+      = .ok [.typeMismatch (subjectPath "x" ++ [⟨.entry, "a"⟩]) (.ofTy (.array .str Rng.pos)) (.notUndef (.array .str Rng.pos)),
+             .extraneousKey (subjectPath "x") "z"] := by
+  simp [describe, internalDescribe, descAll, structItems, lookupLast, distinctNames, Res.append,
+    asg, asgRecv, sameNullary, structAll, structMember, distinctCount, subjectPath, Rng.sub, Rng.pos, I64.max]
+
+theorem C19_typeMismatch_real_false (cfg : Cfg) : ¬ C19_typeMismatch_real cfg true := by
+  intro h
+  have := h _ _ _ _ (C19_typeMismatch_nested_wrapper cfg) _ _ _ List.mem_cons_self
+  simp [asg, asgRecv, sameNullary, Rng.sub, Rng.pos, isStringFamily] at this
+
+/-! non-vacuity of the hypotheses of the theorems above (a description with a missing and an unrecognised key; one with a nested path) -/
+example (cfg : Cfg) :
+    describe cfg true (.struct [("a", false, .int ⟨1, 2⟩)]) (.struct [("b", false, .str)]) (subjectPath "x")
+      = .ok [.missingKey (subjectPath "x") "a", .extraneousKey (subjectPath "x") "b"] := by
+  simp [describe, internalDescribe, descAll, structItems, lookupLast, distinctNames, Res.append,
+    asg, asgRecv, sameNullary, structAll, structMember, distinctCount]
+example (cfg : Cfg) : Ty.WF cfg (.struct [("a", false, .int ⟨1, 2⟩)]) := by simp [Ty.WF]
+example (cfg : Cfg) :
+    describe cfg true (.array (.int ⟨1, 2⟩) ⟨0, 5⟩) (.tuple [.int ⟨1, 1⟩, .str] none) (subjectPath "x")
+      = .ok [.typeMismatch (subjectPath "x" ++ [PE.nat .index 1]) (.ofTy (.int ⟨1, 2⟩)) .str] := by
+  simp [describe, internalDescribe, descAll, arrTupItems, Res.append, tupleSize, Rng.exact,
+    asg, asgRecv, sameNullary, tupZip, Rng.sub, subjectPath]
+example (cfg : Cfg) : asg cfg true (.int ⟨1, 2⟩) .str = false := by simp [asg, asgRecv, sameNullary]
+
+end Pcore.Desc
